@@ -412,3 +412,22 @@ pub fn replay_schedule(body: &dyn Body, choices: &[usize]) -> i32 {
         }
     }
 }
+
+/// Debug aid: runs one schedule and prints every decision (enabled set, whether switching would be a preemption).
+pub fn debug_schedule(body: &dyn Body, choices: &[usize]) -> i32 {
+    mark_uncontrolled();
+    install_sched_hooks();
+    *crate::sched::FOCUS.lock().unwrap() = focus_of(&body.name());
+    crate::sched::ALL_LOCKS.store(body.name().contains("[all-locks]"), std::sync::atomic::Ordering::SeqCst);
+    let x = run_once(body, choices);
+    let mut free_branches = 0usize;
+    for (i, d) in x.trace.iter().enumerate() {
+        let (t, site) = d.resumed;
+        if d.enabled.len() > 1 && !d.preemptible {
+            free_branches += d.enabled.len() - 1;
+        }
+        println!("{i:4} T{t}:{}@{site} enabled={:?} preemptible={} chosen={}", x.names.get(t).map(String::as_str).unwrap_or("?"), d.enabled, d.preemptible, d.chosen);
+    }
+    println!("end={:?} decisions={} cost-0 alternatives={} verdict={:?}", x.end, x.trace.len(), free_branches, x.result.verdict.as_ref().map_err(|v| format!("{}: {}", v.clause, v.detail)));
+    0
+}
